@@ -607,6 +607,13 @@ func (p *Pkg) EmitModel() *EmitModel {
 					}
 				}
 			}
+			// a buffer that is not made in the call (R14.buf reports it)
+			if st.Tok == token.DEFINE && len(st.Lhs) >= 1 && em.BufObj == nil {
+				if o := identObj(info, st.Lhs[0]); o != nil && o.Type().String() == "[]byte" {
+					em.BufObj = o
+					continue
+				}
+			}
 			// tuple of accessor results
 			if st.Tok == token.DEFINE && len(st.Lhs) == len(st.Rhs) {
 				all := true
